@@ -228,6 +228,33 @@ theorem C26_monotone (sec : Bool) (role : String) (gs : Grants) (s : Stmt) (x : 
     rw [hasPrivilege_addGrant, h c hc]
     rfl
 
+/-- **Every table of a multi-table statement is protected**: TRUNCATE (multi-table, or CASCADE
+    over the foreign-key dependents) and DROP TABLE are denied as soon as DELETE is missing on
+    *any one* of the tables they would empty — holding it on the root is not enough. -/
+theorem C26_truncate_needs_delete_on_every_table (sec : Bool) (role : String) (gs : Grants)
+    (ts : List String) (hsec : sec = true) (hrole : isAdmin role = false)
+    (h : ∃ t ∈ ts, hasPrivilege gs role t .delete = false) :
+    ∃ c, authorize sec role gs (.truncate ts) = .deny c := by
+  cases ha : authorize sec role gs (.truncate ts) with
+  | deny c => exact ⟨c, rfl⟩
+  | allow =>
+    exfalso
+    obtain ⟨t, ht, hp⟩ := h
+    rcases (C26_allow_iff sec role gs (.truncate ts)).mp ha with h1 | h1 | h1
+    · simp [hsec] at h1
+    · simp [hrole] at h1
+    · have hc : (⟨.delete, t⟩ : Check) ∈ (Stmt.truncate ts).checks := by
+        simp only [Stmt.checks, Stmt.write, Stmt.moreWrites, Stmt.reads, List.mem_append, List.mem_map]
+        exact Or.inl (Or.inr ⟨t, ht, rfl⟩)
+      have := h1 _ hc
+      simp [Access.priv, hp] at this
+
+/-- non-vacuity: DELETE on the parent only does not authorise TRUNCATE parent CASCADE -/
+example : authorize true "R1" [⟨"P", .delete, "R1", "PUBLIC", false⟩] (.truncate ["C", "P"]) = .deny ⟨.delete, "C"⟩
+    ∧ authorize true "R1" [⟨"P", .delete, "R1", "PUBLIC", false⟩, ⟨"C", .delete, "R1", "PUBLIC", false⟩]
+        (.truncate ["C", "P"]) = .allow := by
+  decide
+
 /-! ## deny is inert; what the caller sees -/
 
 /-- **Deny is inert**: whatever the statement would do, a denied statement leaves the
@@ -270,11 +297,12 @@ theorem C26_deny_fails_partial {DB : Type} (sec : Bool) (role : String) (gs : Gr
   | select q => rfl
   | insert t q => rfl
   | update t q => rfl
+  | truncate ts => rfl
   | delete t q =>
     have hdel := hx t q rfl
     have : c = ⟨.delete, t⟩ := by
       unfold authorize Stmt.checks at hc
-      simp [Stmt.write, firstDenied, hdel] at hc
+      simp [Stmt.write, Stmt.moreWrites, firstDenied, hdel] at hc
       exact hc.symm
     simp [this]
 
